@@ -232,7 +232,7 @@ def r83_r86(repo, ctx, index, states):
     n85 = 0
     for o in outs:
         ev = o.events
-        adaptive = [e for e in ev if e[0] == 'cond' and '_adaptiveBinSize' in e[2]]
+        adaptive = [e for e in ev if e[0] == 'cond' and e[2].strip() == 'self._adaptiveBinSize']
         if not adaptive or adaptive[0][1] != 'T':
             continue
         n85 += 1
@@ -302,7 +302,7 @@ def r87(repo, ctx, index):
         elif isinstance(s, ast.Expr) and isinstance(s.value, ast.Call) and isinstance(s.value.func, ast.Attribute) and 'PBM' in U.src(s.value.func.value) \
                 and s.value.func.attr in index.methods(KEY):
             build = (s.value.func.attr, s)
-    if tvar is None or build is None or not stores:
+    if build is None or not stores:
         ctx.violation('R8.7', path, q, loop, 'the population balance that receives the loaded arrays is not rebuilt from the saved (min, max, bins)',
                       construct='fromDict: no grid rebuild before the array stores')
         return
@@ -314,7 +314,8 @@ def r87(repo, ctx, index):
     def argterm(a):
         # int(PBMdata[2]) / PBMdata[0]
         inner = a.args[0] if isinstance(a, ast.Call) and U.call_name(a) in ('int', 'float') and a.args else a
-        if isinstance(inner, ast.Subscript) and isinstance(inner.value, ast.Name) and inner.value.id == tvar:
+        if isinstance(inner, ast.Subscript) and ((isinstance(inner.value, ast.Name) and inner.value.id == tvar)
+                                                 or (isinstance(inner.value, ast.Subscript) and 'PBM_data_' in U.src(inner.value))):
             try:
                 i = U.const_value(inner.slice)
                 return ('saved', order[i])
